@@ -261,6 +261,24 @@ func propColumnNames(args []string) string {
 				s.Fields = s.Fields[1:]
 			}
 		}},
+		{"references renamed in place below the root of every field expression", func(s *influxql.SelectStatement) {
+			for _, f := range s.Fields {
+				influxql.WalkFunc(f.Expr, func(n influxql.Node) {
+					if ref, ok := n.(*influxql.VarRef); ok && n != influxql.Node(f.Expr) {
+						ref.Val += "_r"
+					}
+				})
+			}
+		}},
+		{"calls renamed in place", func(s *influxql.SelectStatement) {
+			for _, f := range s.Fields {
+				influxql.WalkFunc(f.Expr, func(n influxql.Node) {
+					if c, ok := n.(*influxql.Call); ok {
+						c.Name += "x"
+					}
+				})
+			}
+		}},
 		{"RewriteDistinct", func(s *influxql.SelectStatement) { s.RewriteDistinct() }},
 		{"RewriteTimeFields", func(s *influxql.SelectStatement) { s.RewriteTimeFields() }},
 		{"first field replaced by a call", func(s *influxql.SelectStatement) {
